@@ -51,3 +51,9 @@ func VerifGroupAssets(env envs.Environment, fields *FieldAssets, groups ...*Grou
 	}
 	return s, out
 }
+
+// VerifGroupAssetsOf builds group assets without any group.
+func VerifGroupAssetsOf(env envs.Environment, fields *FieldAssets) *GroupAssets {
+	s, _ := NewGroupAssets(env, fields, nil)
+	return s
+}
